@@ -117,6 +117,15 @@ class CollisionOracle:
                                          f'{w.now - old[1]:.0f}s (retransmission budget is about 21 s)')
         for k in [k for k in self.waiting if k not in seen]:
             del self.waiting[k]
+        # ---- no lost wake-up: local triggers are queued only while a request is outstanding and are replayed (or dropped as moot) when the
+        #      response arrives; an idle IKE_SA that still holds queued triggers will not look at them before its next own exchange completes
+        if node.state == 'running' and not node.exited:
+            for sa in node.ike_sas():
+                if sa.state.name == 'ESTABLISHED' and sa.pending_events:
+                    names = [getattr(e[0], '__name__', '?') for e in sa.pending_events]
+                    return self.viol('queued_local_trigger_not_replayed', {'first': names[0]},
+                                     f'{node.name}: IKE_SA {sa.my_spi.hex()} is idle (ESTABLISHED) after a {cause[0] if isinstance(cause, tuple) else cause} '
+                                     f'step, yet {len(names)} local trigger(s) queued during an earlier exchange are still waiting: {names}')
         # ---- calm points, agreement
         qf = w.scenario.get('quiet_from', 0)
         if w.now < qf + self.H:
